@@ -188,7 +188,7 @@ pub fn show_page(prefix: &str, body: &[u8], needles: &[Vec<u32>]) -> String {
 }
 
 // ---------------------------------------------------------------- the engine
-struct Rt { id: u32, tlvs: Option<(Vec<u32>, Vec<u32>, Vec<u32>)>, errs: Vec<Vec<u32>> }
+struct Rt { id: u32, tlvs: Option<(Vec<u32>, Vec<u32>, Vec<u32>)>, label: String }
 
 fn joined(fs: &[Field]) -> Vec<u32> {
     let mut v = vec![];
@@ -243,6 +243,8 @@ pub fn run_ops(line: &str, raw: bool) -> String {
     let mut tpl = "{sys_name}".to_string();
     let mut fx: Option<HttpFixture> = None;
     let mut routers: Vec<Rt> = vec![];
+    // parse errors are kept per router id (label); routers with one label share them
+    let mut errs: std::collections::HashMap<String, Vec<Vec<u32>>> = Default::default();
     let mut out: Vec<String> = vec![];
     for op in crate::util::ops(line) {
         if op[0] == "C" {
@@ -255,7 +257,8 @@ pub fn run_ops(line: &str, raw: bool) -> String {
         match op[0] {
             "R" | "N" => {
                 let id = f.add_router(addr(op[1]));
-                let mut r = Rt { id, tlvs: None, errs: vec![] };
+                let label = rt.block_on(f.router_id(id)).unwrap_or_default();
+                let mut r = Rt { id, tlvs: None, label };
                 if op[0] == "R" {
                     let (ns, ds, es) = (fields(op[2]), fields(op[3]), fields(op[4]));
                     let ok = rt.block_on(f.feed(id, initiation(&ns, &ds, &es)));
@@ -276,7 +279,7 @@ pub fn run_ops(line: &str, raw: bool) -> String {
                 let fld = field(op[3]);
                 let id = routers[k].id;
                 rt.block_on(f.report_parse_error(id, string_of(&fld.text), None, op[2] == "s"));
-                routers[k].errs.push(fld.text);
+                errs.entry(routers[k].label.clone()).or_default().push(fld.text);
             }
             "P" => {
                 let k: usize = op[1].parse().unwrap();
@@ -316,8 +319,9 @@ pub fn run_ops(line: &str, raw: bool) -> String {
                         let r = &routers[k];
                         let (n, d, e) = r.tlvs.clone().unwrap_or_default();
                         let mut needles = vec![n, d, e];
-                        let skip = r.errs.len().saturating_sub(10);
-                        needles.extend(r.errs[skip..].iter().cloned());
+                        let es = errs.get(&r.label).cloned().unwrap_or_default();
+                        let skip = es.len().saturating_sub(10);
+                        needles.extend(es[skip..].iter().cloned());
                         out.push(show_page(&format!("I{st}"), &body, &needles));
                     }
                 }
